@@ -39,6 +39,10 @@ RX_ATOMS = {
     "[^\\w]": atom("[^\\w]", ALL - WORD), "[\\d_]": atom("[\\d_]", DIGIT | set(b"_")), "[^a\\d]": atom("[^a\\d]", ALL - DIGIT - set(b"a")),
     "[b-da]": atom("[b-da]", b"abcd"), "0": atom("0", b"0"), "[0-3]": atom("[0-3]", b"0123"),
     "[^\\s]": atom("[^\\s]", ALL - SPACE), "$": atom("$", b"$"),
+    "[\\W\\D]": atom("[\\W\\D]", (ALL - WORD) | (ALL - DIGIT)), "[\\S\\D]": atom("[\\S\\D]", (ALL - SPACE) | (ALL - DIGIT)),
+    "[^\\W\\D]": atom("[^\\W\\D]", ALL - ((ALL - WORD) | (ALL - DIGIT))), "[\\W\\S]": atom("[\\W\\S]", (ALL - WORD) | (ALL - SPACE)),
+    "[a\\W]": atom("[a\\W]", (ALL - WORD) | set(b"a")), "[\\w\\s]": atom("[\\w\\s]", WORD | SPACE), "[^\\W\\s]": atom("[^\\W\\s]", ALL - ((ALL - WORD) | SPACE)),
+    "[\\D\\d]": atom("[\\D\\d]", ALL), "[^\\D]": atom("[^\\D]", DIGIT),
 }
 
 
@@ -411,9 +415,9 @@ def source(stmts, extra_decls=(), env=None):
     outs, hooks, fin, yld = used(stmts)
     lines = [env[o] for o in ORDER if o in outs and o in env]
     lines += ["hook %s;" % h for h in HOOKS if h in hooks]
-    if fin:
+    if fin & set(FINISH):
         lines.append("finishcode %s;" % ", ".join(x for x in FINISH if x in fin))
-    if yld:
+    if yld & set(YIELD):
         lines.append("yieldcode %s;" % ", ".join(x for x in YIELD if x in yld))
     lines += list(extra_decls)
     lines.append("parser {")
